@@ -90,12 +90,19 @@ def find_branch_on(cfg, vcall):
     elif up is not None and up.k == 'BinaryOperator' and up.op == '=':
         holder_var = ex.var_of(up.c[0])
 
+    def is_v(s):
+        return s.i == vcall.i or (holder_var is not None and ex.var_of(s) == holder_var and len(ex.assignments_to(fn, holder_var)) == 1)
+
     def atomize(leaf):
         s = leaf.strip_all()
-        if s.i == vcall.i:
+        if is_v(s):
             return ex.f_atom('V')
-        if holder_var is not None and ex.var_of(s) == holder_var and len(ex.assignments_to(fn, holder_var)) == 1:
-            return ex.f_atom('V')
+        # comparison of the (pointer / integer) result with a null constant
+        if s.k == 'BinaryOperator' and s.op in ('==', '!='):
+            a, b = s.c[0].strip_all(), s.c[1].strip_all()
+            for x, y in ((a, b), (b, a)):
+                if is_v(x) and (y.cv == 0 or y.k in ('CXXNullPtrLiteralExpr', 'GNUNullExpr')):
+                    return ex.f_atom('V') if s.op == '!=' else ex.f_not(ex.f_atom('V'))
         return None
 
     for b in cfg.branch_blocks():
@@ -106,6 +113,58 @@ def find_branch_on(cfg, vcall):
         if f is not None and ex.f_atoms(f) == ['V']:
             return b, f
     return None, None
+
+
+def helper_reports(prog, hf, vname, pix):
+    """'ok' when the result of helper hf is truthy whenever validator vname holds for its parameter number pix and falsy when no
+    validator holds; otherwise a reason"""
+    import itertools
+    if pix >= len(hf.param_ids):
+        return 'graph is not passed as a plain parameter'
+    pv = hf.param_ids[pix]
+    cfg = hf.cfg
+    if cfg is None:
+        return 'no control-flow graph'
+
+    def atomize(leaf):
+        s = leaf.strip_all()
+        for vn in common.VALIDATORS:
+            if ex.is_call(s, vn) and s.args() and ex.var_of(s.args()[0]) == pv:
+                return ex.f_atom(vn)
+        return None
+    outcomes = []
+    for r in ex.returns_of(hf):
+        if not r.c:
+            return 'returns nothing'
+        v = r.c[0].strip_all()
+        if v.k == 'StringLiteral' or (v.cv is not None and v.cv != 0):
+            val = ex.TRUE
+        elif v.cv == 0 or v.k in ('CXXNullPtrLiteralExpr', 'GNUNullExpr'):
+            val = ex.FALSE
+        else:
+            val = ex.formula(v, atomize)
+            if val is None:
+                return 'returned value `%s` not understood' % v.text(30)
+        outcomes.append((ex.path_condition(cfg, r, atomize), val))
+    atoms = []
+    for (pc, val) in outcomes:
+        for a in ex.f_atoms(pc) + ex.f_atoms(val):
+            if a not in atoms:
+                atoms.append(a)
+    if any(isinstance(a, tuple) for a in atoms):
+        return 'the helper branches on something else than the validators'
+    if vname not in atoms:
+        return 'the validator result does not influence the helper result'
+    for vals in itertools.product((False, True), repeat=len(atoms)):
+        e = dict(zip(atoms, vals))
+        res = [ex.f_eval(val, e) for (pc, val) in outcomes if ex.f_eval(pc, e)]
+        if len(set(res)) != 1:
+            return 'result not determined by the validators'
+        if e[vname] and not res[0]:
+            return 'falsy result although %s holds' % vname.split('::')[-1]
+        if not any(vals) and res[0]:
+            return 'truthy result although no validator holds'
+    return 'ok'
 
 
 def check_main(rep, prog, main, algo, pos=False):
@@ -127,6 +186,22 @@ def check_main(rep, prog, main, algo, pos=False):
     for vname in common.VALIDATORS:
         vcalls = [n for n in main.walk() if ex.is_call(n, vname) and n.args() and ex.var_of(n.args()[0]) == gvar]
         what = '%s(graph) gates every algorithm call with a non-zero exit and a diagnostic' % vname.split('::')[-1]
+        if not vcalls:
+            # a helper of the driver that applies the validators to the graph and reports the outcome as its (truthy) result
+            hv, hund = [], []
+            for n in main.walk():
+                if n.k == 'CallExpr' and n.callee and n.callee.get('in_repo') and n.callee_id is not None and \
+                        any(ex.var_of(a) == gvar for a in n.args()):
+                    hf = prog.fn_of_fref(n.callee_id)
+                    if hf is None or hf.body is None or not [m for m in hf.walk() if ex.is_call(m, vname)]:
+                        continue
+                    verdict = helper_reports(prog, hf, vname, [ex.var_of(a) for a in n.args()].index(gvar))
+                    (hv if verdict == 'ok' else hund).append((n, verdict))
+            if hv:
+                vcalls = [n for (n, _v) in hv]
+            elif hund:
+                rep.undecided('R11a', hund[0][0], main, what, 'the validator is applied inside the helper `%s`: %s' % (hund[0][0].callee['name'], hund[0][1]))
+                continue
         if not vcalls:
             rep.violation('R11a', rd, main, what, 'the validator is never applied to the graph read from the file',
                           key='R11a|%s|%s|missing' % (tu, vname))
